@@ -23,7 +23,10 @@ from renormalizer.mps import MpDm
 import lib_c07c13 as L
 
 SEEN = {}
-TOLC = 2.0e4   # tolerance = TOLC * eps * nsite * scale  (~4e-12 * n * scale); calibrated, see report
+TOLC = 256.0   # tolerance = TOLC * eps * nsite * scale, scale = product of the Frobenius norms of all site
+               # tensors entering the contraction.  Calibrated: the largest observed error over seeds 0..19 is
+               # < 2 % of this tolerance (evidence key max_error_over_tolerance)
+RDM_CONJ_IS_FINDING = True   # see Checker.rdms
 
 
 # ------------------------------------------------------------------------------------ helpers
@@ -455,7 +458,8 @@ class Checker:
         want = np.array(want)
         tol = _tol(n, scale)
         longer = len(ops) > n + 1
-        self.run.count(f"expectations:{style}:{self.cls()}:{'bra' if use_bra else 'self'}:{'long' if longer else 'short'}")
+        self.run.count(f"expectations:{style}:{'longer-than-cache' if longer else 'short'}")
+        self.run.count(f"expectations:{self.cls()}:{'bra' if use_bra else 'self'}")
         extra = dict(ops=[[L.ser_arr(a) for a in L.arrays(m)] for m in mpos], self_conj=L.ser_mp(X) if X is not None else None)
         try:
             fast = c.mp.expectations(ops, self_conj=X)
@@ -612,6 +616,16 @@ class Checker:
             self.fail(f"calc_edof_rdm:{c.form}:value", dict(got=L.ser_val(got), want=L.ser_val(want)))
 
     # ---- reduced density matrices and entropies ------------------------------------------
+    def conj_finding(self, name, bad_std, bad_tr, tol):
+        """Mps.calc_1site_rdm / calc_2site_rdm are documented as rho = Tr_rest |Psi><Psi| but return
+        rdm[p, q] = sum conj(Psi_p..) Psi_q.. = <q|rho|p>, i.e. the complex conjugate (transpose) of the
+        matrix of rho, for complex states (TTNS.calc_1site_rdm / calc_2site_rdm, same docstring, return
+        <p|rho|q>).  Reported under its own signature; every other mismatch gets ':value'."""
+        if RDM_CONJ_IS_FINDING:
+            self.fail(f"{name}:complex-state:conjugated", dict(err_vs_rho=bad_std, err_vs_rho_T=bad_tr, tol=tol))
+        else:
+            self.run.count(f"observed:{name}:complex-state:conjugated")
+
     def rdms(self):
         c, rng = self.c, self.c.rng
         n = c.n
@@ -628,7 +642,8 @@ class Checker:
             keys = sorted(set(rng.integers(0, n, size=int(rng.integers(1, n + 1))).tolist()))
             idx = keys if rng.random() < 0.5 else tuple(keys)
         got = c.mp.calc_1site_rdm(idx)
-        self.run.count(f"calc_1site_rdm:{self.cls()}:idx-{type(idx).__name__}")
+        self.run.count(f"calc_1site_rdm:{self.cls()}")
+        self.run.count(f"calc_1site_rdm:idx-{type(idx).__name__}")
         if sorted(got.keys()) != keys:
             self.fail(f"calc_1site_rdm:{c.form}:keys", dict(got=sorted(got.keys()), want=keys))
         else:
@@ -644,7 +659,7 @@ class Checker:
             if bad_std > tol:
                 if bad_tr <= tol:
                     # complex state: the chain code returns <Psi|p><q|Psi> = conj of <p|rho|q>
-                    self.fail(f"calc_1site_rdm:complex-state:conjugated", dict(err_vs_rho=bad_std, err_vs_rho_T=bad_tr, tol=tol))
+                    self.conj_finding("calc_1site_rdm", bad_std, bad_tr, tol)
                 else:
                     self.fail(f"calc_1site_rdm:{c.form}:value", dict(err_vs_rho=bad_std, err_vs_rho_T=bad_tr, tol=tol))
         if n >= 2:
@@ -665,7 +680,7 @@ class Checker:
                     bad_tr = max(bad_tr, float(np.max(np.abs(g - w.T))))
                 if bad_std > tol:
                     if bad_tr <= tol:
-                        self.fail(f"calc_2site_rdm:complex-state:conjugated", dict(err_vs_rho=bad_std, err_vs_rho_T=bad_tr, tol=tol))
+                        self.conj_finding("calc_2site_rdm", bad_std, bad_tr, tol)
                     else:
                         self.fail(f"calc_2site_rdm:{c.form}:value", dict(err_vs_rho=bad_std, err_vs_rho_T=bad_tr, tol=tol))
 
@@ -741,7 +756,11 @@ def search(run, rng, quick):
             run.count("rejected:state-generation")
             continue
         ncase += 1
-        run.count(f"model:{case.kind}:n={case.n}:{case.form}:{'complex' if case.cplx else 'real'}")
+        run.count(f"model:{case.kind}:{case.form}")
+        run.count(f"nsite={case.n}")
+        run.count(f"maxbond={max(case.mp.bond_dims)}")
+        for h in case.hist:
+            run.count("gauge:" + h.split("(")[0])
         ck = Checker(run, case, ncase)
         if case.nrm2 == 0 or not np.isfinite(case.nrm2):
             run.count("rejected:zero-state")
